@@ -154,10 +154,12 @@ def _vary(rng, pkind, lo, hi, strong):
 # on adaptive quadrature: (a) bounded densities only (no integrable singularity at the lower end of
 # the support); (b) no location-like parameter that GROWS with the given (Weibull gamma, the mean
 # of LogNormalNormFit): a conditional density whose bulk is narrow relative to its distance from 0
-# is invisible to scipy's quad over (0, inf) -- that regime is exercised by named cases in c06.py.
+# is invisible to scipy's quad over (0, inf); (c) no Weibull location at all (gamma = 0): a support
+# that starts inside (0, inf) puts a kink into the integrand which quad over (0, inf) does not resolve
+# (error 6e-5 with an error estimate of 3e-9) -- these regimes are exercised by named cases in c06.py.
 SPEC_SMOOTH = dict(SPEC)
 SPEC_SMOOTH.update({
-    "weibull": [("alpha", "scale", 0.6, 3.0), ("beta", "shape", 1.3, 3.0), ("gamma", "shape", 0.0, 1.0)],
+    "weibull": [("alpha", "scale", 0.6, 3.0), ("beta", "shape", 1.3, 3.0), ("gamma", "shape", 0.0, 0.0)],
     "expweibull": [("alpha", "scale", 0.6, 3.0), ("beta", "shape", 1.2, 2.5), ("delta", "shape", 1.0, 3.0)],
     "gengamma": [("m", "shape", 1.3, 3.0), ("c", "shape", 1.0, 2.5), ("lambda_", "shape", 0.4, 2.0)],
     "lognormal": [("mu", "logloc", -0.5, 1.5), ("sigma", "shape", 0.25, 0.6)],
